@@ -61,8 +61,8 @@ class Meter:
         self.over = 0
         self.recursion = None       # site of the first RecursionError seen
         self.hang_site = None
-        self._min_depth = None
-        self._installed = False
+        self._stack = []
+        self._sampled = False
 
     # ------------------------------------------------------------------ monitoring callbacks
     def _line(self, code, lineno):
@@ -72,6 +72,8 @@ class Meter:
 
     def _over_budget(self):
         self.over += 1
+        if self.over % 25 != 1 and self.over < WINDOW:
+            return              # the stack is sampled every 25th line of the window (deep stacks are costly to walk)
         f = sys._getframe(2)
         # stack as list outermost-first of pdfminer frames with their depth
         chain = []
@@ -80,7 +82,8 @@ class Meter:
             f = f.f_back
         chain.reverse()
         ids = [(i, fr) for i, fr in enumerate(chain) if fr.f_code.co_filename.startswith(PKG)]
-        if self.over == 1:
+        if self.over == 1 or not self._sampled:
+            self._sampled = True
             self._stack = [(i, id(fr), _site(fr.f_code)) for i, fr in ids]
         else:
             # keep the common prefix: frames that were on the stack at every observation since the budget ran out
@@ -111,6 +114,7 @@ class Meter:
         self.recursion = None
         self.hang_site = None
         self._stack = []
+        self._sampled = False
         try:
             mon.use_tool_id(TOOL, "verif-c13")
         except ValueError:
